@@ -1,5 +1,6 @@
 import JominiModel.Model.Json
 import JominiModel.Proofs.Scalar
+set_option linter.unusedSimpArgs false
 /-
 Helper lemmas for C16_narrowing: `serialize_scalar` (json/mod.rs:472) as a function of the
 four scalar conversions, and its closed form on (signed) digit strings.
@@ -65,15 +66,15 @@ theorem serializeScalar_digits (enc : Enc) (c : UInt8) (body : Bytes)
   · have h1 : decFrom body (digitVal c) ≤ U64_MAX := by simp only [F64_EXACT_MAX, U64_MAX] at *; omega
     have h2 : ¬ decFrom body (digitVal c) > I64_MAX := by simp only [F64_EXACT_MAX, I64_MAX] at *; omega
     have hi : Scalar.toI64 (c :: body) = .ok (decFrom body (digitVal c) : Int) := by
-      simp [Scalar.toI64, Scalar.toI64T, hc, hV, h1, h2]
+      simp [Scalar.toI64, Scalar.toI64T, requireEmpty, toI64Go, hc, hV, h1, h2]
     have hf : Scalar.toF64 (c :: body) = .ok (u64ToF64 (decFrom body (digitVal c))) := by
-      simp [Scalar.toF64, hc, hV, h1, n45, hfit]
+      simp [Scalar.toF64, f64Body, f64Head, f64Tail, f64Int, hc, hV, h1, n45, hfit]
     rw [serializeScalar_i64 enc _ e _ _ he hi hf]
     simp [hfit]
   · have hf : ∃ e2, Scalar.toF64 (c :: body) = .error e2 := by
       by_cases h1 : decFrom body (digitVal c) ≤ U64_MAX
-      · exact ⟨.precisionLoss, by simp [Scalar.toF64, hc, hV, h1, n45, hfit]⟩
-      · exact ⟨.overflow, by simp [Scalar.toF64, hc, hV, h1, n45]⟩
+      · exact ⟨.precisionLoss, by simp [Scalar.toF64, f64Body, f64Head, f64Tail, f64Int, hc, hV, h1, n45, hfit]⟩
+      · exact ⟨.overflow, by simp [Scalar.toF64, f64Body, f64Head, f64Tail, f64Int, hc, hV, h1, n45]⟩
     obtain ⟨e2, hf⟩ := hf
     rw [serializeScalar_f64_refused enc _ e e2 he hf]
     simp [hfit]
@@ -104,19 +105,21 @@ theorem serializeScalar_neg_digits (enc : Enc) (c : UInt8) (body : Bytes)
   by_cases hfit : decFrom body (digitVal c) ≤ F64_EXACT_MAX
   · have h1 : decFrom body (digitVal c) ≤ U64_MAX := by simp only [F64_EXACT_MAX, U64_MAX] at *; omega
     have h2 : ¬ decFrom body (digitVal c) > I64_MAX := by simp only [F64_EXACT_MAX, I64_MAX] at *; omega
+    have h2' : ¬ 9223372036854775808 < decFrom body (digitVal c) := by
+      simp only [F64_EXACT_MAX] at hfit; omega
     have hi : Scalar.toI64 (45 :: c :: body) = .ok (-(decFrom body (digitVal c) : Int)) := by
-      simp [Scalar.toI64, Scalar.toI64T, isDigit, hV0, h1, h2]
+      simp [Scalar.toI64, Scalar.toI64T, requireEmpty, toI64Go, I64_MIN_ABS, isDigit, hV0, h1, h2']
     have hf : Scalar.toF64 (45 :: c :: body) =
         .ok (if decFrom body (digitVal c) = 0 then 0 else signBit + u64ToF64 (decFrom body (digitVal c))) := by
-      simp [Scalar.toF64, hc, hV, h1, h2, hfit]
+      simp [Scalar.toF64, f64Body, f64Head, f64Tail, f64Int, hc, hV, h1, h2, hfit]
     rw [serializeScalar_i64 enc _ e _ _ he hi hf]
     simp [hfit]
   · have hf : ∃ e2, Scalar.toF64 (45 :: c :: body) = .error e2 := by
       by_cases h1 : decFrom body (digitVal c) ≤ U64_MAX
       · by_cases h2 : decFrom body (digitVal c) > I64_MAX
-        · exact ⟨.overflow, by simp [Scalar.toF64, hc, hV, h1, h2]⟩
-        · exact ⟨.precisionLoss, by simp [Scalar.toF64, hc, hV, h1, h2, hfit]⟩
-      · exact ⟨.overflow, by simp [Scalar.toF64, hc, hV, h1]⟩
+        · exact ⟨.overflow, by simp [Scalar.toF64, f64Body, f64Head, f64Tail, f64Int, hc, hV, h1, h2]⟩
+        · exact ⟨.precisionLoss, by simp [Scalar.toF64, f64Body, f64Head, f64Tail, f64Int, hc, hV, h1, h2, hfit]⟩
+      · exact ⟨.overflow, by simp [Scalar.toF64, f64Body, f64Head, f64Tail, f64Int, hc, hV, h1]⟩
     obtain ⟨e2, hf⟩ := hf
     rw [serializeScalar_f64_refused enc _ e e2 he hf]
     simp [hfit]
